@@ -1,5 +1,4 @@
-import HappyProofs.C15.Recover
-import HappyModel.C15.Spec
+import HappyProofs.C15.Crash
 /-!
 # C15 — property theorems (WAL + crash recovery)
 
@@ -12,18 +11,6 @@ recovery is `St.recover`.
 -/
 namespace HappyModel.C15
 open HappyModel.C14
-
-/-- the durable part of the log at a crash -/
-def durableLog (s : St) : List WalE := s.wal.filter fun e => e.seq ≤ s.synced
-
-/-- what `crash(); recover_from_crash()` makes readable, for every state and every key: the last
-    surviving (synced, not truncated) log entry of the key, else what the SSTable levels hold -/
-theorem crash_recover_read (s : St) (k : Key) :
-    s.crash.recover.read k = match lastFor k (durableLog s) none with
-      | some c => some c
-      | none => lookLevels k s.levels := by
-  simp only [St.read, St.recover, St.crash, lookup_replay, durableLog, List.reverse_nil, lookTabs, List.lookup]
-  cases lastFor k (List.filter (fun e => decide (e.seq ≤ s.synced)) s.wal) none <;> rfl
 
 /-- `durable_survive`, the part that is proved: a synced log entry that has not been truncated
     decides the recovered value of its key (the latest such entry wins), for every state.
@@ -50,21 +37,6 @@ theorem no_invention (s : St) (k : Key) (c : Cell) (h : s.crash.recover.read k =
     · cases h0
     · have := List.mem_filter.mp he
       exact Or.inl ⟨e, this.1, by simpa using this.2, hk, hc⟩
-
-/-- recovering twice reads the same as recovering once (every key, every state) -/
-theorem recover_idempotent (s : St) (k : Key) : s.recover.recover.read k = s.recover.read k := by
-  simp only [St.read, St.recover, lookup_replay, lastFor_idem]
-
-/-- a second crash + recovery reads the same as the first (every key, every state) -/
-theorem recover_crash_idempotent (s : St) (k : Key) :
-    s.crash.recover.crash.recover.read k = s.crash.recover.read k := by
-  have hd : durableLog s.crash.recover = durableLog s := by
-    simp only [durableLog, St.crash, St.recover, List.filter_filter]
-    congr 1
-    funext a
-    exact Bool.and_self _
-  rw [crash_recover_read, crash_recover_read, hd]
-  rfl
 
 /-- the flush's truncation bound is below every pending sequence number and below every sequence
     number handed out later: entries not yet applied to a memtable are never truncated -/
